@@ -287,6 +287,26 @@ func intrinsic(fr *frame, fn *ssa.Function, args []value) (value, bool) {
 		}
 		e.noteStub("decoder stub: arbitrary " + pt.Elem().String() + " (" + d.format + ")")
 		return nil, true
+	case "EncodeTree":
+		// EncodeTree(doc string, tree any, format string) []byte: natively the marshalled text; here the
+		// tree is kept for the decoder stub (DecodeTree) and a placeholder is returned
+		e.registerTree(argString(args[0]), argString(args[2]), args[1])
+		return []value{uint8('{'), uint8('}')}, true
+	case "DecodeTree":
+		// DecodeTree(ptr any, doc string): *ptr = the value decoding the registered tree produces
+		it, _ := args[0].(iface)
+		pt, ok := it.t.(*types.Pointer)
+		cell, ok2 := it.v.(*value)
+		if !ok || !ok2 || cell == nil {
+			panic(engineError{"verifrt.DecodeTree needs a non-nil pointer"})
+		}
+		tr, ok := e.trees[argString(args[1])]
+		if !ok {
+			panic(engineError{"verifrt.DecodeTree: no tree registered as " + argString(args[1])})
+		}
+		*cell = assignTree(pt.Elem(), tr.tree, tr.format)
+		e.noteStub("decoder stub: tree assigned to " + pt.Elem().String() + " (" + tr.format + ")")
+		return nil, true
 	case "Document":
 		// natively the rendered document; here a placeholder (the decoder is stubbed)
 		return []value{uint8('{'), uint8('}')}, true
